@@ -44,6 +44,7 @@ def main():
         sys.exit(1)
 
     oblig = source_obligations(ctx)
+    ctx.oblig = oblig
     if oblig: log(f"[{prop}] source obligations broken: {json.dumps(oblig)[:600]}")
     # 3-5. suites: generate, run both sides, compare through the property's projection
     if 'replay' in opts:
